@@ -174,81 +174,67 @@ example : topoOk [0, 1, 2] [⟨0, []⟩, ⟨2, [0, 7]⟩, ⟨1, [0, 2]⟩] = tru
 
 /-! ## (c) verdict of `sendTransaction` -/
 
-/-- every peer that replied (asked for the tx with getdata) also rejected it -/
-def AllRepliersRejected (q : Replies) : Prop := ∀ p ∈ q.replies, p ∈ q.rejections.map (·.1)
+/-- what `sendTransaction` has collected when `queryAllPeers` returns, for a sequence of peer
+messages: the response handler as found in the source (`rejectRequiresReply`) -/
+def collected (msgs : List PeerMsg) : Replies := collect rejectRequiresReply msgs
 
-/-- the share of the replying peers that called the tx invalid reaches `num/den` -/
-def InvalidShareReached (num den : Nat) (q : Replies) : Prop :=
-  (q.rejections.filter (fun x => decide (x.2 = Code.invalid ∧ x.1 ∈ q.replies))).length * den ≥ num * q.replies.length
-
-/-- the verdict clause of the property, full strength -/
-def VerdictClause (num den : Nat) (iter : List Code) (q : Replies) : Prop :=
-  ∀ c, verdict thresholdOp num den iter q = some c → AllRepliersRejected q ∨ InvalidShareReached num den q
-
-/-- **The full clause is false** on the code as written: peer 1 asks for the transaction and
-accepts it silently, peer 2 never asks for it but sends a `reject` (insufficient fee) naming
-it.  `len(replies) == len(rejections)` (1 = 1) is taken for "all peers rejected" and the
-broadcast fails, although no replying peer rejected it and nobody called it invalid. -/
-theorem C15_verdict_counterexample :
-    verdict thresholdOp thresholdNum thresholdDen [.fee] ⟨[1], [(2, .fee)]⟩ = some .fee ∧
-    ¬ AllRepliersRejected ⟨[1], [(2, .fee)]⟩ ∧ ¬ InvalidShareReached thresholdNum thresholdDen ⟨[1], [(2, .fee)]⟩ ∧
-    ¬ VerdictClause thresholdNum thresholdDen [.fee] ⟨[1], [(2, .fee)]⟩ := by
-  have h1 : verdict thresholdOp thresholdNum thresholdDen [.fee] ⟨[1], [(2, .fee)]⟩ = some .fee := by decide
-  have h2 : ¬ AllRepliersRejected ⟨[1], [(2, .fee)]⟩ := by
-    intro h; have := h 1 (by simp); simp at this
-  have h3 : ¬ InvalidShareReached thresholdNum thresholdDen ⟨[1], [(2, .fee)]⟩ := by
-    simp [InvalidShareReached, thresholdNum]
-  refine ⟨h1, h2, h3, ?_⟩
-  intro h
-  rcases h _ h1 with a | a
-  · exact h2 a
-  · exact h3 a
-
-/-- the excluded shape: some peer rejected the tx without having requested it
-(the same predicate the analysis in the report uses) -/
-def RejectersReplied (q : Replies) : Prop := ∀ x ∈ q.rejections, x.1 ∈ q.replies
-
-/-- **Verdict, strongest true form.**  When every `reject` comes from a peer that had
-requested the transaction (and the maps are keyed by peer: one rejection per peer), a
-failing broadcast means every replying peer rejected it or the share calling it invalid
-reached the threshold — for every threshold, every number of peers, every code mix. -/
-theorem C15_verdict_partial (num den : Nat) (iter : List Code) (q : Replies)
-    (hsub : RejectersReplied q) (hnd : (q.rejections.map (·.1)).Nodup) :
-    VerdictClause num den iter q := by
+/-- **Verdict, full strength.**  For EVERY sequence of peer messages naming the transaction
+(getdata and reject from any peers in any order, repeated, from peers that never asked for it,
+sub-queries timing out at any point), every threshold, every tie-break order of the reject
+codes: if `sendTransaction` returns an error, then every peer that replied (requested the
+transaction) rejected it, or the share of the replying peers that called it invalid reached
+the threshold. -/
+theorem C15_verdict (num den : Nat) (iter : List Code) (msgs : List PeerMsg) (c : Code)
+    (hv : verdict thresholdOp num den iter (collected msgs) = some c) :
+    AllRepliersRejected (collected msgs) ∨ InvalidShareReached num den (collected msgs) := by
+  have hg : rejectRequiresReply = true := by decide
   have hop : thresholdOp = ">=" ∨ thresholdOp = ">" := by decide
-  intro c hv
-  simp only [verdict] at hv
-  by_cases h0 : q.replies.length = 0
-  · simp [h0] at hv
-  · simp only [h0, ↓reduceIte] at hv
-    by_cases h1 : q.replies.length = q.rejections.length
-    · left
-      intro p hp
-      refine subset_of_nodup_length_le (q.rejections.map (·.1)) q.replies hnd ?_ (by simp [h1]) p hp
-      intro x hx
-      obtain ⟨y, hy, rfl⟩ := List.mem_map.mp hx
-      exact hsub y hy
-    · simp only [h1, ↓reduceIte] at hv
-      right
-      by_cases h2 : q.rejections.length > 0 ∧
-          cmpOp thresholdOp (countCode .invalid q.rejections * den) (num * q.replies.length) = true
-      · have hfil : (q.rejections.filter (fun x => decide (x.2 = Code.invalid ∧ x.1 ∈ q.replies))) =
-            q.rejections.filter (fun x => decide (x.2 = Code.invalid)) := by
-          apply List.filter_congr
-          intro x hx
-          have := hsub x hx
-          simp [this]
-        simp only [InvalidShareReached, hfil]
-        have hc := h2.2
-        simp only [countCode] at hc
-        rcases hop with e | e
-        · rw [e] at hc; simp [cmpOp] at hc; exact hc
-        · rw [e] at hc; simp [cmpOp] at hc; exact Nat.le_of_lt hc
-      · simp [h2] at hv
+  have hinv := collInv_from msgs {} collInv_init
+  simp only [collected, hg] at hv ⊢
+  exact verdict_sets thresholdOp hop num den iter (collect true msgs) hinv.sub hinv.nodup c hv
 
-example : RejectersReplied ⟨[1, 2, 3], [(2, .invalid), (3, .invalid)]⟩ ∧
-    verdict thresholdOp thresholdNum thresholdDen [.invalid] ⟨[1, 2, 3], [(2, .invalid), (3, .invalid)]⟩ = some .invalid := by
-  refine ⟨by simp [RejectersReplied], by decide⟩
+/-- the shape that used to be excluded is now a consequence of the handler: every recorded
+rejection comes from a peer that had requested the transaction, at most one per peer; and the
+sets mean what their names say (a peer is a replier only through its own getdata, a rejecter
+only through its own reject). -/
+theorem C15_rejecters_replied (msgs : List PeerMsg) :
+    RejectersReplied (collected msgs) ∧ ((collected msgs).rejections.map (·.1)).Nodup ∧
+    (∀ p ∈ (collected msgs).replies, PeerMsg.getdata p ∈ msgs) ∧
+    (∀ x ∈ (collected msgs).rejections, PeerMsg.reject x.1 x.2 ∈ msgs) := by
+  have hg : rejectRequiresReply = true := by decide
+  have hinv := collInv_from msgs {} collInv_init
+  have ho := collect_origin true msgs {}
+  simp only [collected, hg]
+  refine ⟨hinv.sub, hinv.nodup, ?_, ?_⟩
+  · intro p hp
+    rcases ho.1 p hp with h | h
+    · cases h
+    · exact h
+  · intro x hx
+    rcases ho.2 x hx with h | h
+    · cases h
+    · exact h
+
+/-- the input of the repaired defect (peer 1 requests the tx and accepts it silently, peer 2
+never requests it but rejects it): the broadcast now succeeds; without the guard in the reject
+arm (`collect false`) the same messages made it fail although no replier had rejected.
+A reject that arrives BEFORE the same peer's getdata is ignored and the peer stays open, so its
+later getdata and reject count. -/
+example :
+    verdict thresholdOp thresholdNum thresholdDen [.fee] (collected [.getdata 1, .reject 2 .fee]) = none ∧
+    verdict thresholdOp thresholdNum thresholdDen [.fee] (collect false [.getdata 1, .reject 2 .fee]) = some .fee ∧
+    ¬ AllRepliersRejected (collect false [.getdata 1, .reject 2 .fee]) ∧
+    collected [.reject 3 .invalid, .getdata 3, .reject 3 .invalid, .getdata 3, .reject 3 .fee] = ⟨[3], [(3, .invalid)]⟩ := by
+  refine ⟨by decide, by decide, ?_, by decide⟩
+  intro h; have := h 1 (by decide); simp [collect, collectFrom, collectStep] at this
+
+example : verdict thresholdOp thresholdNum thresholdDen [.invalid]
+      (collected [.getdata 1, .getdata 2, .getdata 3, .reject 2 .invalid, .reject 3 .invalid, .reject 9 .invalid]) = some .invalid ∧
+    InvalidShareReached thresholdNum thresholdDen
+      (collected [.getdata 1, .getdata 2, .getdata 3, .reject 2 .invalid, .reject 3 .invalid, .reject 9 .invalid]) := by
+  refine ⟨by decide, ?_⟩
+  simp only [InvalidShareReached]
+  decide
 
 /-- **The threshold is honoured** (this is what `>` instead of `>=` breaks): with the
 comparison found in the source, whenever some but not all repliers rejected and the invalid
@@ -300,7 +286,9 @@ theorem C15_after_stop_returns (s : State) (hs : s.stopped = true) (tx : Tx) (r 
 the handler stores a tx only after the network's answer passed the Mempool test, deletes on
 `confChan`, the rebroadcast walks `DependencySort` of its copy; the verdict computation has
 exactly the four exits modelled by `verdict`, the threshold test is `>=` on
-`rejectCodes[Invalid] / len(replies)`, the most-rejected loop uses `>`. -/
+`rejectCodes[Invalid] / len(replies)`, the most-rejected loop uses `>`; the reject arm records
+nothing for a peer that is not in `replies`, closes the peer after a recorded rejection, and
+`queryAllPeers` drops the messages of a closed peer. -/
 theorem C15_source_shape :
     storeAfterResult = true ∧ handlerDeletesOnConf = true ∧ rebroadcastSorts = true ∧
     verdictPaths = [("len(replies) == 0", "nil"),
@@ -310,7 +298,9 @@ theorem C15_source_shape :
     thresholdOp = ">=" ∧ thresholdLhs = "numInvalid / numPeersResponded" ∧ thresholdRhs = "qo.invalidTxThreshold" ∧
     numInvalidDef = "float32(rejectCodes[pushtx.Invalid])" ∧ numPeersRespondedDef = "float32(len(replies))" ∧
     mostRejectedCmp = "count > mostRejectedCount" ∧
-    repliesKeyedByPeer = true ∧ rejectionsKeyedByPeer = true ∧ thresholdNum * 5 = thresholdDen * 3 := by decide
+    repliesKeyedByPeer = true ∧ rejectionsKeyedByPeer = true ∧
+    rejectRequiresReply = true ∧ rejectClosesPeer = true ∧ closedPeerSkipped = true ∧
+    thresholdNum * 5 = thresholdDen * 3 := by decide
 
 /-! ## `ParseBroadcastError` (which arm of the handler / rebroadcast a reject leads to) -/
 
